@@ -4,6 +4,7 @@ package consensus
 
 import (
 	"context"
+	"time"
 
 	"github.com/LiskHQ/lisk-engine/pkg/blockchain"
 	"github.com/LiskHQ/lisk-engine/pkg/codec"
@@ -509,3 +510,130 @@ func zzH_C03_contradiction_in_window(t *zzT) { zzxAcceptStep(t) }
 //zz:quick extra=3 onlydev=0 budget=300s
 //zz:thorough extra=5 onlydev=0 budget=30m
 func zzH_C05_diffs_kept_above_finalized(t *zzT) { zzxAcceptStep(t) }
+
+// C03 (+C04/C07.d dispatch): the fork-choice dispatch of the real Executer.process on a TIE BREAK: the tip B
+// (height h, received outside its slot) against a competing block B' of the other validator at the same
+// height, same parent, same maxHeightPrevoted, one slot later, received inside its slot. B' is a valid
+// block or deviates in one thing (static validity, signature, application verdicts). Either B' is the new
+// tip and then every rule holds for it, or the node is exactly where it was: tip, database (byte for byte),
+// finalized height — and a block refused before anything was touched (static rules) emits no event.
+// (seed C03-5 moved Block.Validate below deleteBlock in this branch: a statically invalid competing block
+// then removes the tip.)
+//
+//zz:opt loop=80 lockdiscipline=off require=replaced,kept
+//zz:stub time.Now zzxStubNow
+//zz:quick extra=2
+//zz:thorough extra=3
+func zzH_C03_tie_break_step(t *zzT) {
+	devs := []string{"none", "dev.transactionRoot", "dev.txStaticallyInvalid", "dev.signatureGarbage", "dev.abiFailure", "dev.validatorsHash", "dev.maxHeightPrevoted"}
+	dev := devs[t.Choice("deviation", len(devs))]
+	extra := t.Param("extra", 2)
+	// chain of extra-1 blocks, then the tip B one slot later; the wall clock ends in the slot after B's
+	n := zzxNewNode(t, 2, extra-1, 2)
+	ntx := 0
+	if dev == "dev.txStaticallyInvalid" {
+		ntx = 1
+	}
+	mk := func(slots int) *blockchain.Block {
+		var txs []*blockchain.Transaction
+		if ntx == 1 {
+			module := "token"
+			if slots == 2 {
+				module = "to-ken"
+			}
+			txs = append(txs, zzxTx(4, module))
+		}
+		return n.nextValid(slots, txs)
+	}
+	tipBlock := mk(1)
+	other := mk(2) // built on the same parent: same height, previous ID and maxHeightPrevoted, next slot => other validator
+	if err := n.ex.processValidated(context.Background(), tipBlock, false, false); err != nil {
+		t.Fail("setup: tip rejected")
+	}
+	for len(n.chNew) > 0 {
+		<-n.chNew
+	}
+	for len(n.chFinal) > 0 {
+		<-n.chFinal
+	}
+	tip := n.chain.LastBlock().Header
+	h := other.Header
+	if dev == "dev.transactionRoot" {
+		h.TransactionRoot = append([]byte{}, h.TransactionRoot...)
+		h.TransactionRoot[0] ^= 1
+	}
+	if dev == "dev.validatorsHash" {
+		h.ValidatorsHash = append([]byte{}, h.ValidatorsHash...)
+		h.ValidatorsHash[0] ^= 1
+	}
+	if dev == "dev.maxHeightPrevoted" {
+		// no longer a tie break (different maxHeightPrevoted): the block is a "different chain" or discarded
+		h.MaxHeightPrevoted = tip.MaxHeightPrevoted + 1
+	}
+	gi := n.slotOf(h.Timestamp) % 2
+	h.Sign(zzxChainID, zzxPriv[gi])
+	if dev == "dev.signatureGarbage" {
+		h.Signature = bytes.Repeat([]byte{0xff}, 64)
+	}
+	h.Init()
+	if dev == "dev.abiFailure" {
+		fi := int(t.U8("abi.failAt"))
+		t.Assume(fi >= 1 && fi < 8 && fi != 4 && fi != 5) // no transaction in the block: steps 4, 5 are not called
+		n.abi.failIdx, n.abi.failOnce = fi, true
+	}
+	// the tip was received in the slot AFTER its own (late), the competing block arrives in its own slot
+	late := time.Unix(int64(h.Timestamp)+1, 0)
+	n.ex.lastBlockReceived = &late
+	n.abi.calls, n.abi.commits, n.abi.reverts, n.abi.commitsOK = nil, 0, 0, 0
+	db.ZZMonitorReset(n.database)
+	before := db.ZZDump(n.database)
+	finBefore, _ := n.chain.DataAccess().GetFinalizedHeight()
+	mhpB, preB, certB := n.heights()
+
+	if dev == "dev.maxHeightPrevoted" {
+		// the syncer is not part of this harness: the dispatch must not touch the chain before handing over
+		n.ex.syncer = nil
+		defer func() {
+			recover()
+			t.Assert(zzxDumpEqual(before, db.ZZDump(n.database)) && bytes.Equal(n.chain.LastBlock().Header.ID, tip.ID), "a block of a different chain changes nothing before the sync starts")
+			t.Reach("kept")
+		}()
+	}
+	err := n.ex.process(&ProcessContext{ctx: context.Background(), block: other, peerID: "peer"})
+	now := n.chain.LastBlock().Header
+	finAfter, _ := n.chain.DataAccess().GetFinalizedHeight()
+	if bytes.Equal(now.ID, h.ID) {
+		t.Assert(dev == "none", "tie break: the competing block becomes the tip only if it satisfies every rule")
+		t.Assert(err == nil, "tie break: replacing the tip reports no error")
+		t.Assert(now.Height == tip.Height, "tie break: the new tip has the height of the replaced one")
+		t.Assert(n.drained(n.chDelete) == 1 && n.drained(n.chNew) == 1, "tie break: one delete event and one new-block event")
+		t.Assert(finAfter >= finBefore, "finalized height never decreases")
+		_, okOld := n.chain.DataAccess().GetBlockHeader(tip.ID)
+		t.Assert(okOld != nil, "tie break: the replaced block is no longer served by ID")
+		zzxRestartCheck(t, n)
+		t.Reach("replaced")
+		return
+	}
+	t.Assert(dev != "none", "tie break: a valid competing block received in its slot replaces a tip received late")
+	t.Assert(bytes.Equal(now.ID, tip.ID), "refused competing block: the tip is the one before")
+	t.Assert(zzxDumpEqual(before, db.ZZDump(n.database)), "refused competing block leaves the database unchanged")
+	t.Assert(finAfter == finBefore, "refused competing block leaves the finalized height unchanged")
+	mhpA, preA, certA := n.heights()
+	t.Assert(mhpA == mhpB && preA == preB && certA == certB, "refused competing block leaves the BFT heights unchanged")
+	static := dev == "dev.transactionRoot" || dev == "dev.txStaticallyInvalid"
+	if static {
+		writes, direct, _ := db.ZZMonitor(n.database)
+		if writes >= 0 {
+			t.Assert(writes == 0 && direct == 0, "statically invalid competing block performs no durable write")
+		}
+		t.Assert(err != nil, "statically invalid competing block is reported as an error")
+		t.Assert(n.drained(n.chDelete) == 0 && n.drained(n.chNew) == 0 && n.drained(n.chFinal) == 0, "statically invalid competing block emits no event")
+		t.Assert(n.abi.reverts == 0 && n.abi.commits == 0, "statically invalid competing block does not reach the application")
+	} else {
+		// LIP-0014: the tip is removed, the competing block fails, the previous tip is applied again
+		t.Assert(n.drained(n.chDelete) == n.drained(n.chNew), "refused competing block: every delete event is followed by the event of the restored tip")
+		t.Assert(n.abi.reverts == n.abi.commitsOK, "refused competing block: the application is reverted and restored the same number of times")
+	}
+	zzxRestartCheck(t, n)
+	t.Reach("kept")
+}
